@@ -100,6 +100,69 @@ where C: FullDuplexMultiChannel<ItemType = u32> + Send + Sync + 'static,
     }) }
 }
 
+/// Two threads add / remove listeners at the same time (no send in flight); once both are done, one event is sent: it must reach
+/// every live listener exactly once, nobody else, and the stream accounting must be exact.
+/// scripts: per thread a string over 'c' (create a listener and keep it) and 'd' (drop the listener this thread was given in setup)
+#[derive(Debug, Clone)]
+pub struct ChurnSpec { pub kind: MultiKind, pub scripts: Vec<&'static str>, pub stable: usize }
+
+fn make_churn<C>(spec: ChurnSpec) -> Instance
+where C: FullDuplexMultiChannel<ItemType = u32> + Send + Sync + 'static, C::DerivedItemType: Val + Send + 'static {
+    let name = chan_name("c17");
+    let chan: Arc<C> = C::new(name.clone());
+    if spec.kind == MultiKind::ML { cleanup_mmap(&name) }
+    type S<C> = MutinyStream<'static, u32, C, <C as FullDuplexMultiChannel>::DerivedItemType>;
+    let stable: Vec<S<C>> = (0..spec.stable).map(|_| chan.create_stream_for_new_events().0).collect();
+    // every thread that drops gets its victims up front
+    let kept: Arc<Mutex<Vec<S<C>>>> = Arc::new(Mutex::new(Vec::new()));
+    let mut bodies: Vec<mcx::Body> = Vec::new();
+    for script in spec.scripts.iter() {
+        let mut victims: Vec<S<C>> = script.chars().filter(|c| *c == 'd').map(|_| chan.create_stream_for_new_events().0).collect();
+        let (chan, kept, script) = (chan.clone(), kept.clone(), *script);
+        bodies.push(Box::new(move || {
+            for op in script.chars() {
+                match op {
+                    'c' => { mcx::rec("add.call", 0, 0); let (s, id) = chan.create_stream_for_new_events(); mcx::rec("add.ret", id as i64, 0); kept.lock().unwrap().push(s) }
+                    'd' => { let s = victims.pop().unwrap(); mcx::rec("rm.call", 0, 0); drop(s); mcx::rec("rm.ret", 0, 0) }
+                    _ => unreachable!(),
+                }
+            }
+        }));
+    }
+    let stable = Mutex::new(stable);
+    let sp = spec.clone();
+    Instance { bodies, check: Box::new(move |out| {
+        let mut v = Vec::new();
+        for (t, p) in out.panics.iter().enumerate() { if let Some(p) = p { v.push(("panic".to_string(), format!("thread {t}: {p}"))) } }
+        if out.terminal != mcx::Terminal::Done { v.push(("no-termination".into(), format!("execution ended {:?}", out.terminal))); return v }
+        let ctx = || mcx::fmt_log(&out.log);
+        let mut live: Vec<S<C>> = stable.lock().unwrap().drain(..).collect();
+        live.extend(kept.lock().unwrap().drain(..));
+        let running = chan.running_streams_count() as usize;
+        if running != live.len() { v.push(("stream-accounting".into(), format!("{} listeners are alive after the churn, running_streams_count() = {running}: {}", live.len(), ctx()))) }
+        let accepted = matches!(chan.send(77), keen_retry::RetryResult::Ok { .. });
+        if !accepted { v.push(("rejected".into(), format!("a send on an empty channel was rejected after the churn: {}", ctx()))) }
+        let waker = noop_waker();
+        let mut cx = Context::from_waker(&waker);
+        let n_live = live.len();
+        for (l, s) in live.iter_mut().enumerate() {
+            let mut got = Vec::new();
+            for _ in 0..3 { match Pin::new(&mut *s).poll_next(&mut cx) { Poll::Ready(Some(item)) => { got.push(item.val()); drop(item) }, _ => break } }
+            if accepted && got != vec![77] {
+                let kind = if got.is_empty() { "live-listener-missed" } else if got.len() > 1 { "live-listener-duplicate" } else { "live-listener-alien" };
+                v.push((kind.into(), format!("listener {l} (of {n_live}) is alive when event 77 is sent after the churn ended; it yielded {:?}: {}", got, ctx())));
+            }
+        }
+        if v.is_empty() && matches!(sp.kind, MultiKind::OA | MultiKind::OF) {
+            let mut n = 0;
+            for k in 0..(B + 2) { match chan.send(500 + k as u32) { keen_retry::RetryResult::Ok { .. } => { n += 1; for s in live.iter_mut() { if let Poll::Ready(Some(item)) = Pin::new(&mut *s).poll_next(&mut cx) { drop(item) } } }, _ => break } }
+            if n != B + 2 { v.push(("storage-leaked".into(), format!("after the churn, with every event consumed and released at once, only {n} further sends were accepted: {}", ctx()))) }
+        }
+        drop(live);
+        v
+    }) }
+}
+
 fn judge(out: &Outcome, sp: &Spec, drained: &[(i64, i64)]) -> Vec<(String, String)> {
     let mut v = Vec::new();
     for (t, p) in out.panics.iter().enumerate() { if let Some(p) = p { v.push(("panic".to_string(), format!("thread {t}: {p}"))) } }
@@ -149,6 +212,22 @@ pub fn scenarios(tier: Tier) -> Vec<ScenarioDef> {
                             make: Arc::new(move || { let sp = spec.clone(); crate::dispatch_multi!(sp.kind, 4, 4, make(sp)) }) });
                     }
                 }
+            }
+        }
+    }
+    // concurrent churn, quiescent send
+    for kind in MultiKind::ALL {
+        let mut scripts: Vec<(&str, Vec<&'static str>)> = vec![("T2-cc", vec!["c", "c"]), ("T2-cd", vec!["c", "d"]), ("T2-dd", vec!["d", "d"])];
+        if tier == Tier::Thorough { scripts.extend([("T2-cdc", vec!["cd", "c"]), ("T3-ccc", vec!["c", "c", "c"]), ("T3-cdd", vec!["c", "d", "d"])]) }
+        for (idx, (name, sc)) in scripts.into_iter().enumerate() {
+            for stable in [0usize, 1] {
+                let total = stable + sc.iter().map(|s| s.len()).sum::<usize>();
+                if total > 4 { continue }
+                if kind == MultiKind::ML && tier == Tier::Quick && stable == 0 { continue }
+                let spec = ChurnSpec { kind, scripts: sc.clone(), stable };
+                let bound = match tier { Tier::Quick => 2, Tier::Thorough => if sc.len() == 2 { 4 } else { 3 } };
+                defs.push(ScenarioDef { prop: "C17", family: format!("multi-{}/concurrent-churn/L{stable}", kind.name()), rung: name.to_string(), rung_idx: idx, max_bound: bound,
+                    make: Arc::new(move || { let sp = spec.clone(); crate::dispatch_multi!(sp.kind, 4, 4, make_churn(sp)) }) });
             }
         }
     }
